@@ -153,7 +153,9 @@ def make_e_preempt(params, part, nparts):
         ce, cm = pick(e, NE), pick(m, NM)
         assume((ce * NM + cm) % nparts == part)
         prog = [pick(fl, 2), ce, cm, pick(k, K)]
-        ok = native(preempt_scenario, params.get('impl', 'py'), prog)
+        ok = False
+        for impl in (('py', 'c') if params.get('impl') == 'both' else (params.get('impl', 'py'),)):
+            ok = native(preempt_scenario, impl, prog) or ok
         assume(ok)
         reached(tuple(prog), dict(schedule='%s | %s | k=%d' % (TP.PE_ENTRY[ce], TP.PE_MUT[cm], prog[3])))
     return h
@@ -538,7 +540,7 @@ HARNESSES = [
                     'mutators call out)',
             oracle='registries built afterwards with the same registrations and no earlier lookups'),
     Harness('e_preempt', make_e_preempt, kind='E', impls=('py',),
-            tiers=dict(quick=dict(budget_s=150, parts=14, params=dict(K=120, impl='py')), thorough=dict(budget_s=600, parts=14, params=dict(K=120, impl='py'))),
+            tiers=dict(quick=dict(budget_s=150, parts=14, params=dict(K=120, impl='py')), thorough=dict(budget_s=900, parts=14, params=dict(K=160, impl='both'))),
             encoded=['zope.interface.adapter:AdapterLookupBase._uncached_lookup', 'zope.interface.adapter:AdapterLookupBase._uncached_lookupAll',
                      'zope.interface.adapter:AdapterLookupBase._uncached_subscriptions', 'zope.interface.adapter:_lookup',
                      'zope.interface.adapter:_lookupAll', 'zope.interface.adapter:_subscriptions',
@@ -547,7 +549,7 @@ HARNESSES = [
             bounds='thread schedules of one lookup thread against one mutator thread under the GIL: the lookup (7 entry/key shapes of arity 1 and 2, both '
                    'registry flavours) runs to its k-th line event inside zope/interface/adapter.py (every k up to the end of the call, <= 120), '
                    'the mutator then runs one whole mutator call (9 kinds: the last registration / subscription of an arity or of a provided '
-                   'interface, a more specific registration, the answering registration, ...), the lookup resumes; pure-Python lookup layer',
+                   'interface, a more specific registration, the answering registration, ...), the lookup resumes; quick: pure-Python build, thorough: both builds (the uncached lookups are Python in both, the cache layer differs)',
             outside='switches inside the mutator (two half-done mutators); more than one switch per lookup; bytecode boundaries inside one line; '
                     'the C cache layer (covered at its callback points by e_reent / ir_lookup)',
             oracle='no exception; the answer is the one before or the one after the mutation (twin registries); the repeated call gives the after-answer',
